@@ -44,7 +44,25 @@ def run(ctx):
     clause_e(ctx, fx)
     clause_f(ctx, fx)
     clause_h(ctx, fx)
+    clause_i(ctx, fx)
     clause_g(ctx, fx)
+
+
+def clause_i(ctx, fx):
+    """'…for every disclosure strategy': which members are selectively disclosable is what the strategy designates — the path syntax and
+    the level / separator semantics of the strategy type (rules shared with C05.P4 / P5)"""
+    import c05
+    import imodel
+
+    class Quiet:
+        def __getattr__(self, n):
+            return lambda *a, **k: None
+    I = imodel.Issuer(Quiet(), fx, "C01.i")
+    if not getattr(I, "ok", False):
+        return
+    r = common.RelabelCtx(ctx, "C01.i")
+    c05.p4(r, fx, I)
+    c05.p5(r, fx, I)
 
 
 def clause_h(ctx, fx):
